@@ -198,6 +198,17 @@ func rnsMachine(rt *rapid.T, c *chain.Chain, wts rnsWeights, oracle func(*rnsWor
 			sp := spell(rt, key)
 			check(w.run("register", s, sp, rnstypes.NewMsgRegisterName(s.Bech, sp, years, data, rapid.Bool().Draw(rt, "primary")), nil))
 		},
+		// a registrant that cannot afford the name (an account that holds a few coins only): the registration must fail and
+		// move nothing, whatever the name-service module account happens to hold in escrow
+		"registerByPauper": func(rt *rapid.T) {
+			key := w.drawCanon(rt)
+			p := chain.Acc(60 + rapid.IntRange(0, 3).Draw(rt, "pauper"))
+			if bal := w.c.App.BankKeeper.GetBalance(w.f.Ctx, p.Addr, "ujkl"); bal.IsZero() && rapid.Bool().Draw(rt, "pocketMoney") {
+				must(w.c.App.BankKeeper.SendCoins(w.f.Ctx, w.accs[3].Addr, p.Addr, sdk.NewCoins(sdk.NewInt64Coin("ujkl", rapid.Int64Range(1, 3_000_000).Draw(rt, "coins")))))
+			}
+			sp := spell(rt, key)
+			check(w.run("register", p, sp, rnstypes.NewMsgRegisterName(p.Bech, sp, rapid.Int64Range(1, 2).Draw(rt, "years"), "{}", false), nil))
+		},
 		"list": func(rt *rapid.T) {
 			key := w.drawCanon(rt)
 			s := w.drawSigner(rt, key)
